@@ -407,7 +407,25 @@ func execAC(p *ACPlan, keepLog bool) acResult {
 		}
 		return p.OldLen >= 0 && sameBytes(got, old), sameBytes(got, data)
 	}
+	// "at every instant": after every system call of an AtomicCreate the
+	// destination, as any other process would see it, is the previous state or
+	// exactly the data -- never anything in between
+	var instantBad string
+	watch := func(prev []byte, prevAbsent bool, next []byte, what string) {
+		k.AfterSyscall = func(n int, op string) {
+			if instantBad != "" {
+				return
+			}
+			got, ok := k.ReadFile("/" + p.Dir + "/" + p.Name)
+			isPrev := (!ok && prevAbsent) || (ok && !prevAbsent && sameBytes(got, prev))
+			isNext := ok && sameBytes(got, next)
+			if !isPrev && !isNext {
+				instantBad = fmt.Sprintf("%s: right after system call #%d (%s) %s/%s is %s: neither what it was before the call nor exactly the new data", what, n, op, p.Dir, p.Name, describeState(got, !ok))
+			}
+		}
+	}
 	// phase 1: the call
+	watch(old, p.OldLen < 0, data, "during the call")
 	k.SetFaults(p.Faults)
 	var panicked bool
 	var pmsg string
@@ -419,6 +437,7 @@ func execAC(p *ACPlan, keepLog bool) acResult {
 		res.acFrom = k.Syscalls()
 		panicked, pmsg = attempt(func() { fs.AtomicCreate(p.Dir, p.Name, data) })
 		res.acTo = k.Syscalls()
+		k.AfterSyscall = nil
 		// what is visible right now (no crash): through the same instance
 		after, afterAbsent, afterMsg = readName(fs, p.Dir, p.Name)
 	})
@@ -442,6 +461,11 @@ func execAC(p *ACPlan, keepLog bool) acResult {
 				}
 			}
 		}
+	}
+	k.AfterSyscall = nil
+	if instantBad != "" {
+		fail("ac.instant.partial", "ac.instant.partial"+facts, instantBad+fmt.Sprintf(" (fault: %s; prior: old=%d bytes, leftover temp=%d bytes)", fault, p.OldLen, p.TmpLen))
+		return res
 	}
 	crashed := r1.Outcome == simrt.Crashed
 	if crashed {
@@ -540,11 +564,19 @@ func execAC(p *ACPlan, keepLog bool) acResult {
 	if leftover {
 		res.probes["fresh_call_over_leftover_tmp"]++
 	}
+	before3, ok3 := k.ReadFile("/" + p.Dir + "/" + p.Name)
+	watch(before3, !ok3, data2, "during a fresh call over what the interrupted one left behind")
 	r3 := s.Run(func() {
 		fs := filesys.NewDirFs("/")
 		pan2, msg2 = attempt(func() { fs.AtomicCreate(p.Dir, p.Name, data2) })
+		k.AfterSyscall = nil
 		got2, abs2, _ = readName(fs, p.Dir, p.Name)
 	})
+	k.AfterSyscall = nil
+	if instantBad != "" {
+		fail("ac.instant.partial", "ac.instant.partial/after-interrupted-call", instantBad+fmt.Sprintf(" (the earlier call: %s)", fault))
+		return res
+	}
 	res.events += r3.Events
 	if keepLog {
 		res.log = append(res.log, r3.Log...)
